@@ -11,7 +11,7 @@ from pyvc.contract import Contract, Ctx, mval, register
 from pyvc.core import SV, And, Declined, If, Implies, Not, Or, Unsupported, deep_eq, truth
 
 from . import models as M
-from .arrays import OpsArrayNS, SArr, fresh_array, fresh_index, in_range
+from .arrays import OpsArrayNS, SArr, fresh_array, fresh_index, in_range, permute
 from .c_terms import MTerm, NumberM, make_super
 from .models import MDom, make_domain
 
@@ -855,6 +855,139 @@ class TensorEagerSubsRename(Contract):
         return False
 
 
+@register
+class TensorEagerSubsAdvanced(Contract):
+    """Tensor.eager_subs, advanced-indexing path (every value a Number or an integer Tensor; Variables and Slices are the
+    other contract's): the result is the SIMULTANEOUS substitution in the caller's environment --
+      inputs: walking self's inputs in order, a substituted input is replaced by the inputs of its value (none for a
+        Number), an unsubstituted one stays; a name met twice keeps its first position;
+      for EVERY index  result.data[idx] == self.data[c_1, .., c_n, event idx]  where c_k is the Number, or the value tensor read
+        at ITS OWN named coordinates of idx, or idx's coordinate of the unsubstituted input k.
+    A value may mention any caller-side name: a new one, an unsubstituted input of self (diagonal), another value's input
+    (shared), even the very name it is substituted for (x(a=T(a)): T's a is the caller's, of any size).
+    structure bound: self has <= 2 inputs, event rank <= 1; value tensors have <= 2 inputs."""
+
+    props = ("C01", "C04")
+    file = "funsor/tensor.py"
+    qualname = "Tensor.eager_subs"
+    total = True
+    max_paths = 4000
+    timeout_ms = 30000
+    mutants = (
+        ("value dims laid out in the value's own order", "                        v_shape[new_dims[k2]] = size", "                        v_shape[list(v.inputs).index(k2) - len(v.inputs) - len(self.output.shape)] = size"),
+        ("preserved input placed one dim off", "                offset_from_right = -1 - new_dims[k]", "                offset_from_right = -new_dims[k]"),
+        ("values aligned by position instead of by name", "                    v = v.align(tuple(k2 for k2 in inputs if k2 in v.inputs))", "                    v = v"),
+    )
+
+    VALS = ["", "a", "b", "c", "ca", "ac", "cd"]
+
+    def structures(self, tier):
+        for names in ("a", "ab"):
+            kinds = ["-", "num"] + ["ten:" + v for v in self.VALS]
+            for ks in itertools.product(kinds, repeat=len(names)):
+                if all(k == "-" for k in ks):
+                    continue
+                if tier == "quick" and len(names) == 2 and sum(len(k) for k in ks if k.startswith("ten:")) > 10:
+                    continue
+                for e in (0, 1):
+                    yield "inputs=%s,subs=%s,event=%d" % (names, ",".join(ks), e), (names, ks, e)
+
+    def build(self, p, st):
+        names, ks, e = st
+        cs = {}  # sizes of caller-side names
+
+        def csize(n):
+            if n not in cs:
+                v = p.fresh_int("size_" + n)
+                p.assume(v >= 1)
+                cs[n] = v
+            return cs[n]
+
+        bsz = []
+        for nm, k in zip(names, ks):
+            if k == "-":
+                bsz.append(csize(nm))
+            else:
+                v = p.fresh_int("keysize_" + nm)
+                p.assume(v >= 1)
+                bsz.append(v)
+        es = sizes(p, e, "x_e")
+        x = TensorM.__new__(TensorM)
+        x.inputs = OrderedDict((n, MDom(sz, ())) for n, sz in zip(names, bsz))
+        x.output = MDom("real", tuple(es))
+        x.dtype = "real"
+        x.data = fresh_array(p, "x", tuple(bsz) + tuple(es))
+        x.materialize = lambda v: v
+
+        class ValT(TensorM):
+            def align(self, order):
+                order = tuple(order)
+                if order == tuple(self.inputs):
+                    return self
+                perm = tuple(list(self.inputs).index(n) for n in order)
+                r = ValT.__new__(ValT)
+                r.inputs = OrderedDict((n, self.inputs[n]) for n in order)
+                r.output, r.dtype = self.output, self.dtype
+                r.data = permute(self.data, perm)
+                return r
+
+        ValT.__model_class__ = TensorM
+        subs, vals = [], {}
+        for nm, k, ksz in zip(names, ks, bsz):
+            if k == "-":
+                continue
+            if k == "num":
+                v = p.fresh_int("num_" + nm)
+                p.assume(And(0 <= v, v < ksz))
+                val = NumberM(v, ksz)
+            else:
+                vn = k[4:]
+                F = z3.Function("V_%s!%d" % (nm, next(p.counter)), *([z3.IntSort()] * len(vn) + [z3.IntSort()]))
+
+                def vget(idx, F=F, ksz=ksz, vn=vn):
+                    r = SV(F(*[core._lift(i) for i in idx])) if vn else SV(F())
+                    p.assume(And(0 <= r, r < ksz))  # typed: the value's output is Bint[size of the substituted input]
+                    return r
+
+                val = ValT.__new__(ValT)
+                val.inputs = OrderedDict((n, MDom(csize(n), ())) for n in vn)
+                val.output = MDom(ksz, ())
+                val.dtype = ksz
+                val.data = SArr(tuple(csize(n) for n in vn), vget, "int")
+            subs.append((nm, val))
+            vals[nm] = val
+        from collections import Counter
+        from .c_terms import SliceM, VariableM
+
+        ns = dict(TENSOR_NS, Tensor=TensorM, Variable=VariableM, Slice=SliceM, Counter=Counter, to_funsor=lambda v, d=None: v, enumerate=enumerate, any=core.sany, slice=slice, list=list, tuple=tuple, zip=zip, len=len, int=lambda v: v)
+        return Ctx(args=(x, tuple(subs)), namespace=ns, x=x, vals=vals, cs=cs, bsz=bsz, es=tuple(es), st=st, p=p)
+
+    def ensures(self, ctx, result):
+        names, ks, e = ctx.st
+        if not isinstance(result, TensorM):
+            return [("returns_tensor", False)]
+        exp = []
+        for nm, k in zip(names, ks):
+            for n in ([nm] if k == "-" else ([] if k == "num" else list(k[4:]))):
+                if n not in exp:
+                    exp.append(n)
+        shape = tuple(ctx.cs[n] for n in exp) + ctx.es
+        cl = [("inputs_are_unsubstituted_inputs_and_value_inputs", list(result.inputs) == exp and And(*[deep_eq(result.inputs[n].dtype, ctx.cs[n]) for n in exp])), ("shape", len(result.data.shape) == len(shape) and deep_eq(tuple(result.data.shape), shape))]
+        if len(result.data.shape) == len(shape):
+            idx = fresh_index(ctx.p, shape)
+            b = {n: idx[i] for i, n in enumerate(exp)}
+            coords = []
+            for nm, k in zip(names, ks):
+                if k == "-":
+                    coords.append(b[nm])
+                elif k == "num":
+                    coords.append(ctx.vals[nm].data)
+                else:
+                    coords.append(ctx.vals[nm].data.get(tuple(b[n] for n in k[4:])))
+            cl.append(("simultaneous_substitution_at_every_index", Implies(in_range(idx, shape), result.data.get(idx) == ctx.x.data.get(tuple(coords) + tuple(idx[len(exp):])))))
+        return cl
+
+
 # ==================================================================================================
 # C01: indexing, stacking, concatenation, Lambda on Tensors
 # ==================================================================================================
@@ -1097,6 +1230,92 @@ class EagerStackHomogeneous(Contract):
             from .arrays import select
 
             cl.append(("element_k_is_part_k_at_the_same_point", Implies(in_range(idx, shape), result.data.get(idx) == select(idx[0], vals))))
+        return cl
+
+
+@register
+class EagerCatHomogeneous(Contract):
+    """eager_cat_homogeneous(name, part_name, *parts) for Tensors: result.inputs = name (size = sum of the parts' sizes along
+    part_name) followed by the union of the parts' OTHER inputs (first-appearance order); for EVERY index
+      result.data[t, other idx, event idx] == part_j.data at the same named point with part_name = t - (sizes of parts before j)
+    where j is the part whose segment contains t (parts lacking an input are broadcast along it).
+    structure bound: <= 3 parts, each over part_name and <= 2 other names in any order, event rank <= 1; sizes symbolic."""
+
+    props = ("C01",)
+    file = "funsor/tensor.py"
+    qualname = "eager_cat_homogeneous"
+    max_paths = 6000
+    total = True
+    mutants = (
+        ("parts concatenated in reverse", "    tensor = ops.cat(tensors, dim)", "    tensor = ops.cat(tensors[::-1], dim)"),
+        ("every part expanded to the last part's length", "        inputs[part_name] = part.inputs[part_name]\n        shape", "        inputs[part_name] = parts[-1].inputs[part_name]\n        shape"),
+    )
+
+    def structures(self, tier):
+        pool = ["t", "ta", "at", "tab", "bta", "tb"]
+        for n in (1, 2, 3):
+            for ins in itertools.product(pool, repeat=n):
+                if tier == "quick" and n == 3 and (len(set(ins)) > 2 or any(len(i) > 2 for i in ins)):
+                    continue
+                for nm in ("t", "s"):
+                    for e in (0, 1):
+                        yield "parts=%s,name=%s,event=%d" % (list(ins), nm, e), (ins, nm, e)
+
+    def build(self, p, st):
+        ins, nm, e = st
+        es = tuple(sizes(p, e, "e"))
+        gs = {}
+        parts, tsz = [], []
+        for k, names in enumerate(ins):
+            bs = []
+            for n_ in names:
+                if n_ == "t":
+                    s = p.fresh_int("t_%d" % k)
+                    p.assume(s >= 1)
+                    tsz.append(s)
+                    bs.append(s)
+                    continue
+                if n_ not in gs:
+                    s = p.fresh_int("g_" + n_)
+                    p.assume(s >= 1)
+                    gs[n_] = s
+                bs.append(gs[n_])
+            t = TensorM.__new__(TensorM)
+            t.inputs = OrderedDict((n_, MDom(b, ())) for n_, b in zip(names, bs))
+            t.output = MDom("real", es)
+            t.dtype = "real"
+            t.data = fresh_array(p, "part%d" % k, tuple(bs) + es)
+            parts.append(t)
+        loc = core.locate("funsor/tensor.py", "align_tensor")
+        at, _ = core.make_callable(loc, TENSOR_NS)
+        return Ctx(args=(nm, "t") + tuple(parts), namespace=dict(TENSOR_NS, align_tensor=at, len=len, list=list, tuple=tuple), parts=parts, gs=gs, tsz=tsz, es=es, st=st, p=p)
+
+    def ensures(self, ctx, result):
+        ins, nm, e = ctx.st
+        if not isinstance(result, TensorM):
+            return [("returns_tensor", False)]
+        union = []
+        for names in ins:
+            for n_ in names:
+                if n_ != "t" and n_ not in union:
+                    union.append(n_)
+        total = ctx.tsz[0]
+        for s in ctx.tsz[1:]:
+            total = total + s
+        shape = (total,) + tuple(ctx.gs[n_] for n_ in union) + ctx.es
+        cl = [("inputs_name_then_union_of_other_inputs", list(result.inputs) == [nm] + union and deep_eq(result.inputs[nm].dtype, total)), ("shape", len(result.data.shape) == len(shape) and deep_eq(tuple(result.data.shape), shape))]
+        if len(result.data.shape) == len(shape):
+            idx = fresh_index(ctx.p, shape)
+            t = idx[0]
+            expected = None
+            off = 0
+            segs = []
+            for part, names, sz in zip(ctx.parts, ins, ctx.tsz):
+                val = part.data.get(tuple((t - off) if n_ == "t" else idx[1 + union.index(n_)] for n_ in names) + tuple(idx[1 + len(union):]))
+                segs.append((off, off + sz, val))
+                off = off + sz
+            conds = [Implies(And(in_range(idx, shape), lo <= t, t < hi), result.data.get(idx) == val) for lo, hi, val in segs]
+            cl.append(("each_position_reads_its_own_part_at_the_same_named_point", And(*conds)))
         return cl
 
 
